@@ -479,3 +479,122 @@ def constructor_states(fu):
             if root in fu.objs and root[0] == "heap" and off.is_const() and off.c == 0:
                 out.append((t, root, stt[root]))
     return out
+
+
+# ======================================================================================
+# S3: positional heap arrays - written in every iteration of a covering loop before being handed whole to a reader
+# ======================================================================================
+def array_init(eng, fn):
+    """For each malloc'ed array whose elements are written *by position* (index = loop counter): if no positional write executes
+    on every iteration of a loop covering the allocation, and the whole array is later read (handed to a reading callee from its
+    base, or loaded by position in every iteration of another loop), report it.  Arrays filled through a separate cursor
+    (compaction) or only read under per-element guards are not decided.  Returns [(malloc inst, reader inst, why)] and a count."""
+    from .lin import Lin
+    fi = eng.core.fi(fn).prepare(); loops = fn.loops(); fn.dom()
+    pts = eng.core.pts
+    res = []; ntracked = 0
+    def latch_blocks(h): return [p.id for p in fn.bmap[h].preds if p.id in loops[h]]
+    def every_iteration(inst, h): return all(fn.dominates(inst.block.id, l) for l in latch_blocks(h))
+    def counter_of(h):
+        body = loops[h]
+        for j in fn.bmap[h].insts:
+            if j.op != "phi" or j["t"].endswith("*") or len(j["incoming"]) != 2: continue
+            o2 = [x for x in j["incoming"] if x["b"] not in body]; b2 = [x for x in j["incoming"] if x["b"] in body]
+            if len(o2) == 1 and len(b2) == 1 and o2[0]["v"]["k"] == "int" and int(o2[0]["v"]["v"]) == 0 and b2[0]["v"]["k"] == "inst":
+                si = fn.imap[b2[0]["v"]["v"]]
+                if si.op == "add" and si.ops[1]["k"] == "int" and int(si.ops[1]["v"]) == 1 and si.ops[0]["k"] == "inst" and si.ops[0]["v"] == j.id: return j
+        return None
+    def loop_of(inst):
+        best = None
+        for h, body in loops.items():
+            if inst.block.id in body and (best is None or len(body) < len(loops[best])): best = h
+        return best
+    for m in fn.calls("malloc"):
+        root = ("heap", m.id)
+        size = fi.lin(m.ops[0])
+        if size.is_const(): continue                       # fixed-size objects are E-UNINIT's business
+        writes = []; readers = []
+        for i in fn.insts():
+            if i.op == "store":
+                r, off = fi.ptr(i.ops[1])
+                if r == root: writes.append((i, off, i["size"], "store"))
+            elif i.op == "load":
+                r, off = fi.ptr(i.ops[0])
+                if r == root: readers.append((i, off, "load"))
+            elif i.op == "call":
+                c = i.get("callee") or ""
+                if c in ("free", "realloc"): continue
+                if c.startswith("llvm.memset") or c.startswith(("llvm.memcpy", "llvm.memmove")):
+                    r, off = fi.ptr(i.ops[0])
+                    if r == root: writes.append((i, off, None, "bulk"))
+                    if not c.startswith("llvm.memset"):
+                        r2, off2 = fi.ptr(i.ops[1])
+                        if r2 == root: readers.append((i, off2, "memcpy"))
+                    continue
+                s = pts.summ.get(c); us = eng.summ.get(c)
+                for n in range(i["nargs"]):
+                    a = i.ops[n]
+                    if not a["t"].endswith("*"): continue
+                    r, off = fi.ptr(a)
+                    if r != root: continue
+                    wr = s is not None and any(x[0] == "arg" and x[1] == n for x in s.mod)
+                    rd = s is not None and ("arg", n, 0) in s.reads
+                    if wr:
+                        full = us is not None and us.mw.get(n, 0) != 0
+                        writes.append((i, off, "callee-full" if full else "callee-some", "call"))
+                    if rd and not (wr and us is not None and not us.rbw.get(n, 0)): readers.append((i, off, "call:%s" % c))
+        if not writes: continue
+        # positional writes: offset = stride * (loop counter)
+        positional = []; other = []
+        for (i, off, sz, kind) in writes:
+            h = loop_of(i)
+            ctr = counter_of(h) if h is not None else None
+            cl = fi.lin({"k": "inst", "v": ctr.id, "t": ctr["t"]}) if ctr is not None else None
+            ispos = False
+            if cl is not None and len(off.t) == 1 and off.c == 0:
+                (a, k), = off.t.items()
+                if a in cl.atoms() and k > 0: ispos = True; stride = k
+            if ispos: positional.append((i, h, stride, kind, sz))
+            else: other.append((i, off, kind))
+        if not positional: continue
+        ntracked += 1
+        if any(kind == "bulk" or (off.is_const() and off.c == 0 and kind == "call") for (i, off, kind) in other): continue     # filled wholesale somewhere
+        # every path through a covering loop's body passes a positional write (possibly different writes on different paths)
+        full = False
+        for h in {h for (_, h, _, _, _) in positional}:
+            wblocks = {i.block.id for (i, hh, _, kind, sz) in positional if hh == h and not (kind == "call" and sz != "callee-full")}
+            if not wblocks: continue
+            body = loops[h]; seen = set(); st = [h]; escaped = False
+            if h in wblocks: full = True; break
+            while st:
+                x = st.pop()
+                if x in seen: continue
+                seen.add(x)
+                for s2 in fn.bmap[x].succs:
+                    if s2.id == h: escaped = True          # back at the header without having met a write
+                    elif s2.id in body and s2.id not in wblocks: st.append(s2.id)
+            if not escaped: full = True; break
+        if full: continue
+        # whole-array readers
+        for (r, off, kind) in readers:
+            whole = False
+            if kind.startswith("call") or kind == "memcpy":
+                whole = False
+                if off.is_const() and off.c == 0:
+                    stride0 = positional[0][2]
+                    if kind == "memcpy": whole = fi.lin(r.ops[2]) == size
+                    else:
+                        # the callee is told to look at as many elements as were allocated
+                        for n2 in range(r["nargs"]):
+                            a2 = r.ops[n2]
+                            if not a2["t"].endswith("*") and fi.lin(a2).scale(stride0) == size: whole = True
+            else:
+                h = loop_of(r); ctr = counter_of(h) if h is not None else None
+                if ctr is not None and every_iteration(r, h):
+                    cl = fi.lin({"k": "inst", "v": ctr.id, "t": ctr["t"]})
+                    whole = len(off.t) == 1 and off.c == 0 and next(iter(off.t)) in cl.atoms()
+            if whole:
+                w0 = positional[0][0]
+                res.append((m, r, "array allocated at line %s is written by position only on some iterations (e.g. line %s is skipped on a path through the loop) but is read in full by %s at line %s" % (m.line, w0.line, kind, r.line)))
+                break
+    return res, ntracked
